@@ -795,9 +795,9 @@ func (s *Server) cmdSearch(msg *Message) (res resp.Value, err error) {
 			len(sw.whereins) == 0 && len(sw.whereevals) == 0 &&
 			sw.globEverything {
 			// SEARCH only iterates over the string values
-			count := sw.col.StringCount() - int(sargs.cursor)
-			if count < 0 {
-				count = 0
+			count := 0
+			if n := sw.col.StringCount(); uint64(n) > sargs.cursor {
+				count = n - int(sargs.cursor)
 			}
 			if uint64(count) > sw.limit {
 				// COUNT with a LIMIT reports what the same query would send
